@@ -22,7 +22,7 @@ def check_obligation(o, timeout_ms=10000, seed=0):
     if r == z3.sat:
         try:
             m = s.model()
-            res["model"] = {str(d): str(m[d]) for d in m.decls() if d.arity() == 0}
+            res["model"] = {str(d): str(m[d])[:160] for d in m.decls() if d.arity() == 0 and not z3.is_array(m[d])}
         except Exception as ex:  # pragma: no cover
             res["model"] = {"error": str(ex)}
     if r == z3.unknown:
